@@ -94,4 +94,24 @@ def showAll : List Node → String
   | n :: ns => n.show ++ "," ++ showAll ns
 end
 
+def hexDigit (n : Nat) : Char := if n < 10 then Char.ofNat (48 + n) else Char.ofNat (87 + n)
+
+/-- a type with every character outside the plain printable range rendered as ~hh -/
+def typeText (ty : String) : String :=
+  String.join (ty.toList.map fun ch =>
+    let n := ch.toNat
+    if n < 0x21 ∨ n > 0x7d ∨ ch = '(' ∨ ch = ')' ∨ ch = ',' then
+      String.ofList ['~', hexDigit (n / 16 % 16), hexDigit (n % 16)]
+    else String.ofList [ch])
+
+mutual
+/-- nested box types only (sizes omitted): what the correspondence compares -/
+def Node.types : Node → String
+  | .mk ty _ kids => if kids.isEmpty then typeText ty else typeText ty ++ "(" ++ typesAll kids ++ ")"
+def typesAll : List Node → String
+  | [] => ""
+  | [n] => n.types
+  | n :: ns => n.types ++ "," ++ typesAll ns
+end
+
 end Mp4ff.Walk
